@@ -384,7 +384,8 @@ def explore(hkey, params=None, *, nproc=None, max_paths=2_000_000, wall_s=1500, 
             res.exhaustive = True
     res.wall_s = time.time() - t0
     if res.exhaustive:
-        res.unreached = [l for l in harness.must_reach if res.labels.get(l, 0) == 0]
+        mr = harness.must_reach_for(params) if hasattr(harness, "must_reach_for") else harness.must_reach
+        res.unreached = [l for l in mr if res.labels.get(l, 0) == 0]
     return res
 
 
